@@ -106,15 +106,16 @@ def r_spawn_fresh(e, R):
     # launch: provenance of the keep-list
     la = e.prog.func(f"{PP}:Popen._launch")
     pc = e.prog.cls(f"{PP}:Popen")
+    KEEP = keep_list_attr(e)
     adds = []
     for nm, m in pc.methods.items():
         for n in func_nodes(m):
-            if isinstance(n, ast.Assign) and isinstance(n.targets[0], ast.Attribute) and n.targets[0].attr == "_fds":
+            if isinstance(n, ast.Assign) and isinstance(n.targets[0], ast.Attribute) and n.targets[0].attr == KEEP:
                 adds.append((m, "init", n.value))
-            if isinstance(n, ast.AugAssign) and isinstance(n.target, ast.Attribute) and n.target.attr == "_fds":
+            if isinstance(n, ast.AugAssign) and isinstance(n.target, ast.Attribute) and n.target.attr == KEEP:
                 adds.append((m, "extend", n.value))
             if isinstance(n, ast.Call) and isinstance(n.func, ast.Attribute) and n.func.attr in ("append", "extend") and isinstance(n.func.value, ast.Attribute) \
-                    and n.func.value.attr == "_fds":
+                    and n.func.value.attr == KEEP:
                 adds.append((m, n.func.attr, n.args[0]))
     pipes = [n for n in func_nodes(la) if isinstance(n, ast.Assign) and isinstance(n.value, ast.Call) and norm(n.value.func) == "os.pipe" and isinstance(n.targets[0], ast.Tuple)]
     if len(pipes) != 2:
@@ -155,7 +156,7 @@ def r_spawn_fresh(e, R):
     R.check(okc, "R-SPAWN-FRESH", "_launch: the child ends are closed in the parent in a finally clause covering the pipes' creation", la.short, "finally: os.close(child_r/child_w)",
             "the parent keeps the child ends open: the sentinel never fires and descriptors leak per worker", e.loc(la, la.node))
     # the payload pipe's read end is what the child is told to read
-    okpipe = any(isinstance(n, ast.Call) and norm(n.func).endswith("_mk_inheritable") and n.args and isinstance(n.args[0], ast.Name) and n.args[0].id in child
+    okpipe = any(isinstance(n, ast.Call) and makes_inheritable(e, la, n) and n.args and isinstance(n.args[0], ast.Name) and n.args[0].id in child
                  and ends.get(n.args[0].id) == "r" for n in func_nodes(la))
     R.check(okpipe, "R-SPAWN-FRESH", "_launch: --pipe is the child's read end of the payload pipe", la.short, "--pipe child_r", "the child reads the wrong descriptor", e.loc(la, la.node))
     # env forwarded
@@ -212,6 +213,54 @@ def r_init_first(e, R):
     R.floor("R-INIT-FIRST", 4)
 
 
+def keep_list_attr(e):
+    """The attribute of the launcher that is handed to fork_exec as the list of descriptors to keep."""
+    la = e.prog.func(f"{PP}:Popen._launch")
+    for c in func_nodes(la):
+        if isinstance(c, ast.Call) and e.callees_of(c) & {"loky.backend.fork_exec:fork_exec"} and len(c.args) > 1 and isinstance(c.args[1], ast.Attribute):
+            return c.args[1].attr
+    raise AnalysisError("_launch: the keep-list handed to fork_exec is not an attribute of the launcher")
+
+
+def makes_inheritable(e, func, call):
+    """Does `call` make its (first) argument inheritable?  Resolved through the callee's body (os.set_inheritable(fd, True))."""
+    def body_sets(q):
+        f = e.prog.funcs.get(q)
+        return f is not None and any(isinstance(n, ast.Call) and norm(n.func) == "os.set_inheritable" and len(n.args) == 2 and isinstance(n.args[1], ast.Constant)
+                                     and n.args[1].value is True for n in func_nodes(f))
+    qs = e.callees_of(call)
+    if qs:
+        return any(body_sets(q) for q in qs)
+    # unresolved callee (module attribute of a conditional import): fall back on every function of that name
+    nm = call.func.attr if isinstance(call.func, ast.Attribute) else call.func.id if isinstance(call.func, ast.Name) else None
+    return any(q.split(":")[-1] == nm and body_sets(q) for q in e.prog.funcs)
+
+
+def _ctor_source(e, init, attr):
+    """Names of the constructor's parameters from which `self.<attr>` is filled (directly, or position-wise through a
+    helper call / tuple assignment such as `self._a, self._b = helper(a, b)`)."""
+    out = set()
+    params = set(init.params) | set(init.kwonly)
+    selfn = init.params[0]
+    for n in func_nodes(init):
+        if not isinstance(n, ast.Assign):
+            continue
+        for t in n.targets:
+            if isinstance(t, ast.Attribute) and t.attr == attr and isinstance(t.value, ast.Name) and t.value.id == selfn:
+                out |= {x.id for x in ast.walk(n.value) if isinstance(x, ast.Name)} & params
+            if isinstance(t, ast.Tuple):
+                for j, el in enumerate(t.elts):
+                    if isinstance(el, ast.Attribute) and el.attr == attr and isinstance(el.value, ast.Name) and el.value.id == selfn:
+                        v = n.value
+                        part = None
+                        if isinstance(v, ast.Tuple) and j < len(v.elts):
+                            part = v.elts[j]
+                        elif isinstance(v, ast.Call) and j < len(v.args):
+                            part = v.args[j]
+                        out |= {x.id for x in ast.walk(part if part is not None else v) if isinstance(x, ast.Name)} & params
+    return out
+
+
 def r_args(e, R):
     """Positional / role agreement between the spawn site's args tuple and the
     worker main's parameters."""
@@ -266,8 +315,10 @@ def r_args(e, R):
             if p in roles:
                 continue
             if isinstance(x, ast.Attribute):
-                R.check(x.attr.strip("_") == p.strip("_"), "R-ARGS", f"worker parameter `{p}` receives the executor's `{x.attr}`", sf.short, f"{p} <- {norm(x)}",
-                        f"`{norm(x)}` is shipped as `{p}`", e.loc(sf, x))
+                src = _ctor_source(e, a.init, x.attr)
+                R.check(p in src, "R-ARGS", f"worker parameter `{p}` receives the executor field that the constructor filled from its `{p}` argument", sf.short,
+                        f"{p} <- field set from {sorted(src)}", f"`{norm(x)}` (set by the constructor from {sorted(src) or 'nothing recognisable'}) is shipped as `{p}`",
+                        e.loc(sf, x))
             elif isinstance(x, ast.BinOp):
                 glob = [n for n in func_nodes(wm) if isinstance(n, ast.Assign) and isinstance(n.value, ast.Name) and n.value.id == p and isinstance(n.targets[0], ast.Name)
                         and n.targets[0].id in wm.globals_decl]
@@ -278,7 +329,7 @@ def r_args(e, R):
             else:
                 R.fail("R-ARGS", sf.short, norm(x), f"unrecognised argument for `{p}`", e.loc(sf, x))
     envk = [k for f_, c in a.spawn_sites for k in c.keywords if k.arg == "env"]
-    R.check(bool(envk) and all(isinstance(k.value, ast.Attribute) and k.value.attr.strip("_") == "env" for k in envk), "R-ARGS", "the executor's env is shipped with the process",
+    R.check(bool(envk) and all(isinstance(k.value, ast.Attribute) and "env" in _ctor_source(e, a.init, k.value.attr) for k in envk), "R-ARGS", "the executor's env is shipped with the process",
             sf.short, "env=self._env", "env= is not applied to (re)spawned workers", e.loc(sf, sf.node))
     R.floor("R-ARGS", 8)
 
